@@ -2,7 +2,7 @@
 """Apply a patch (unified diff, or `file::old::new` textual substitutions) to a scratch copy of
 /repo outside /repo and /verif, run ./check for the given properties against it, remove the copy.
 
-usage: try_variant.py [--keep] (--patch P | --sub FILE::OLD::NEW ...) C01 [C02 ...]
+usage: try_variant.py [--keep] (--patch P | --sub FILE@@OLD@@NEW ...) C01 [C02 ...]
 """
 import argparse
 import os
@@ -38,7 +38,7 @@ def main():
                 print("PATCH-DOES-NOT-APPLY")
                 return 3
         for s in a.sub:
-            f, old, new = s.split("::", 2)
+            f, old, new = s.split("@@", 2)
             old = old.encode().decode("unicode_escape")
             new = new.encode().decode("unicode_escape")
             p = os.path.join(d, f)
